@@ -184,8 +184,11 @@ pub fn run_scenario(sc: &Scenario, dir: &Path) -> CaseResult {
 }
 
 fn run(ctx: &Ctx) {
-	let n = scaled(ctx, 4_000, 100_000);
-	if !ctx.run_prop("trees", n, scenario(40), run_scenario) {
+	// quick: shards 0-5 spend their time on the reference-count growth sub-runs (the base
+	// database costs ~1 min to build), the other shards share the tree histories
+	let growth_shard = ctx.tier != "thorough" && ctx.shard < 6 && ctx.shards > 6;
+	let n = if ctx.tier == "thorough" || ctx.shards <= 6 { scaled(ctx, 4_000, 100_000) } else { (4_000 / (ctx.shards - 6)) as u32 + 1 };
+	if !growth_shard && !ctx.run_prop("trees", n, scenario(40), run_scenario) {
 		return
 	}
 	if ctx.tier == "thorough" {
@@ -196,7 +199,7 @@ fn run(ctx: &Ctx) {
 	}
 	// growth of the reference-count table: needs a base database of ~1M nodes (built once per
 	// shard), so only a small slice runs in the quick tier
-	if ctx.tier == "thorough" || ctx.shard < 4 || std::env::var("PDBV_ONLY_SUB").is_ok() {
+	if ctx.tier == "thorough" || growth_shard || std::env::var("PDBV_ONLY_SUB").is_ok() {
 		let base_dir = ctx.scratch.join("refgrow-base");
 		let base = match guarded(|| super::refgrow::build_base(&base_dir)) {
 			Ok(b) => b,
@@ -206,11 +209,11 @@ fn run(ctx: &Ctx) {
 			},
 		};
 		ctx.note(&format!("refcount growth base: {} nodes, {} node addresses in the chosen chunk", base.nodes, base.colliding.len()));
-		let n = if ctx.tier == "thorough" { scaled(ctx, 0, 1_400) } else { 6 };
+		let n = if ctx.tier == "thorough" { scaled(ctx, 0, 1_400) } else { 3 };
 		if !ctx.run_prop_shrink("refcount-growth", n, 30, super::refgrow::rg_case(false), |c, dir| super::refgrow::run_case(&base, c, dir)) {
 			return
 		}
-		let n = if ctx.tier == "thorough" { scaled(ctx, 0, 1_400) } else { 6 };
+		let n = if ctx.tier == "thorough" { scaled(ctx, 0, 1_400) } else { 3 };
 		ctx.run_prop_shrink("refcount-growth-crash", n, 30, super::refgrow::rg_case(true), |c, dir| super::refgrow::run_case(&base, c, dir));
 		let _ = std::fs::remove_dir_all(&base_dir);
 	}
